@@ -1,4 +1,5 @@
 import Drv.EvalCase
+import VrpModel.C06Multi
 open Lean Drv Route C06 Drv.EvalCase
 
 namespace Drv.C06
@@ -48,12 +49,24 @@ def handle (j : Json) : R (List (String × Json)) := do
           ((acts.zip jobs).all (fun (a, jb) => placeMatches jb a)) &&
           -- sub-jobs in their order: insertion indices never decrease
           (acts.zip (acts.drop 1)).all (fun (a, b) => a.idx < b.idx)
+    -- every step of the implementation's sequence is accepted by the MODEL's activity-level evaluation on the tour that
+    -- already holds the previous steps (`C06.acceptedSeq`; `C06Multi.acceptedSeq_sound_hyps` then gives feasibility)
+    let stepsOf (acts : List ImplAct) : List Step :=
+      (acts.zip dems).map (fun (a, d) => { i := a.idx, x := { loc := a.loc, s := a.tw.1, e := a.tw.2, dur := a.dur }, dem := d })
+    let acceptedOf (r : Option (List ImplAct × List Int)) : Bool := match r with
+      | none => true
+      | some (acts, _) => acceptedSeq c (stepsOf acts)
+    let wfOf (r : Option (List ImplAct × List Int)) : Bool := match r with
+      | none => true
+      | some (acts, _) => seqWF c (stepsOf acts)
     let oracle := if baseOk then Json.mkObj [
         ("sound_any", Json.bool (soundOf implAny)),
-        ("sound_concrete", Json.bool (implConcrete.all soundOf))]
+        ("sound_concrete", Json.bool (implConcrete.all soundOf)),
+        ("model_accepts_every_step", Json.bool (acceptedOf implAny && implConcrete.all acceptedOf))]
       else Json.mkObj []
     return [("model", Json.null), ("oracle", oracle),
-            ("info", Json.mkObj [("base_ok", Json.bool baseOk), ("impl_any_ok", Json.bool implAny.isSome)])]
+            ("info", Json.mkObj [("base_ok", Json.bool baseOk), ("impl_any_ok", Json.bool implAny.isSome),
+                                 ("in_sequence_theorem", Json.bool (baseOk && wfOf implAny && implConcrete.all wfOf))])]
   else throw s!"unknown case kind {k}"
 
 end Drv.C06
